@@ -24,11 +24,19 @@
 (* repaired in /repo (fix commits a40eb45, 6942973, 39ee0e2), so the        *)
 (* standard configuration is Fixed = AllFix (then kf stays {}); the         *)
 (* unrepaired branches remain as negative configurations of the self-test:  *)
-(*   "error-exit-silent"  a `?` exit of TcpConnection::start (no permit    *)
-(*        for an inbound substream; substream report to a protocol whose   *)
-(*        receiver is gone) leaves the loop without report_connection_closed*)
-(*        (repaired: no permit -> regular close with report; a failed       *)
-(*        substream report is only logged and the loop keeps running)       *)
+(*   "no-permit-exit"  handle_yamux_substream: no permit for an inbound     *)
+(*        substream (`.ok_or(Error::ConnectionClosed)?`)                     *)
+(*   "opened-report-to-dead-protocol"  handle_negotiated_substream:          *)
+(*        report_substream_open(..)? to a protocol whose receiver is gone    *)
+(*        (inbound substream, or the outcome of an open the protocol         *)
+(*        requested before it shut down)                                     *)
+(*   "open-failure-report-to-dead-protocol"  handle_negotiated_substream:    *)
+(*        report_substream_open_failure(..)? (the open the protocol          *)
+(*        requested before it shut down is refused by the remote / times out)*)
+(*        each of the three left the loop without report_connection_closed   *)
+(*        (repaired: no permit -> regular close with report; a failed        *)
+(*        substream report is only logged and the loop keeps running; the    *)
+(*        websocket and quic tasks had the same exits: c255e71, 53934d5)     *)
 (*   "stale-protocol-map" the transport's copy of the protocol map keeps a *)
 (*        protocol that shut down: report_connection_established fails and  *)
 (*        the manager rolls every later connection back (repaired: the      *)
@@ -61,9 +69,11 @@ vars == <<conn, pch, open_, mch, mgr, svc, next, nst, nsub, mon, kf, hist>>
 
 P == Q \cup QD
 NoFix == {}
-AllFix == {"error-exit-silent", "stale-protocol-map"}
-OnlyMapFix == {"stale-protocol-map"}
-OnlyExitFix == {"error-exit-silent"}
+AllFix == {"no-permit-exit", "opened-report-to-dead-protocol", "open-failure-report-to-dead-protocol", "stale-protocol-map"}
+AllButPermit == AllFix \ {"no-permit-exit"}
+AllButOpened == AllFix \ {"opened-report-to-dead-protocol"}
+AllButOpenFailure == AllFix \ {"open-failure-report-to-dead-protocol"}
+AllButMap == AllFix \ {"stale-protocol-map"}
 Me == "A"
 NewC == [st |-> "accepting", ntf |-> {}, tell |-> {}, mtold |-> FALSE, strong |-> {}, permits |-> 0,
          cmdq |-> <<>>, pend |-> {}]
@@ -227,17 +237,18 @@ StartClosing(c) == [conn EXCEPT ![c].st = "closing", ![c].tell = P, ![c].mtold =
 
 \* originally a `?` exit: the loop is left without report_connection_closed; repaired (no permit for
 \* an inbound substream): the connection is closed the regular way, with the report
+SilentExit(c, tag) == conn' = [conn EXCEPT ![c].st = "exited", ![c].pend = {}] /\ kf' = kf \cup {tag}
 ErrorExit(c) ==
-  IF "error-exit-silent" \in Fixed
+  IF "no-permit-exit" \in Fixed
     THEN conn' = StartClosing(c) /\ UNCHANGED kf
-    ELSE conn' = [conn EXCEPT ![c].st = "exited", ![c].pend = {}] /\ kf' = kf \cup {"error-exit-silent"}
+    ELSE SilentExit(c, "no-permit-exit")
 
 \* a substream report to a protocol whose receiver is gone: originally a `?` exit; repaired: the
 \* failure is logged, the substream (and its permit) is dropped and the loop keeps running
-GoneReport(c, x) ==
-  IF "error-exit-silent" \in Fixed
+GoneReport(c, x, tag) ==
+  IF tag \in Fixed
     THEN conn' = [conn EXCEPT ![c].pend = @ \ {x}, ![c].permits = @ - 1] /\ UNCHANGED kf
-    ELSE ErrorExit(c)
+    ELSE SilentExit(c, tag)
 
 \* yamux reports the connection closed / failed: remote closed, network cut, remote crashed
 TRemoteClosed(c) ==
@@ -260,20 +271,23 @@ TNegotiated(c, x, ok) ==
   /\ conn[c].st = "running" /\ x \in conn[c].pend
   /\ LET q == x[1] IN
      IF ok THEN
-          IF ~open_[q] THEN GoneReport(c, x) /\ UNCHANGED pch  \* report_substream_open fails
+          IF ~open_[q] THEN GoneReport(c, x, "opened-report-to-dead-protocol") /\ UNCHANGED pch
           ELSE /\ Room(q)
                /\ pch' = [pch EXCEPT ![q] = Append(@, Ev("sub", c))]
                /\ conn' = [conn EXCEPT ![c].pend = @ \ {x}]
                /\ UNCHANGED kf
      ELSE IF x[2] = "out" THEN
-          IF ~open_[q] THEN GoneReport(c, x) /\ UNCHANGED pch  \* report_substream_open_failure fails
+          IF ~open_[q] THEN GoneReport(c, x, "open-failure-report-to-dead-protocol") /\ UNCHANGED pch
           ELSE /\ Room(q)
                /\ pch' = [pch EXCEPT ![q] = Append(@, Ev("subfail", c))]
                /\ conn' = [conn EXCEPT ![c].pend = @ \ {x}, ![c].permits = @ - 1]
                /\ UNCHANGED kf
      ELSE /\ conn' = [conn EXCEPT ![c].pend = @ \ {x}, ![c].permits = @ - 1]
           /\ UNCHANGED <<pch, kf>>
-  /\ NoStim /\ UNCHANGED <<open_, mch, mgr, svc, next, nsub, mon>>
+  \* the outcome is part of the recorded schedule (it decides what the replay has to provoke), but it is
+  \* not counted as an environment stimulus
+  /\ nst' = nst /\ hist' = Append(hist, [a |-> "outcome", q |-> x[1], dir |-> x[2], ok |-> ok])
+  /\ UNCHANGED <<open_, mch, mgr, svc, next, nsub, mon>>
 
 \* a command from a protocol (handle_protocol_command)
 TCommand(c) ==
